@@ -159,6 +159,15 @@ theorem C15_pinned_chunked_to_http10 :
       some [49, 13, 10, 101, 13, 10, 48, 13, 10, 13, 10] ∧
     (parseResp (serveOne 0 false [.setHeader sTE sChunked, .write [101]]).out).map (fun r => r.1.body) = some [101] := by decide +kernel
 
+/-- a delimiting header field set after the header block has gone out (pinned, before 13c8e6d): the response
+    on the wire announces neither a length nor a transfer coding, yet the connection is kept open; the repaired
+    writer decides by what it sent and closes -/
+theorem C15_pinned_late_header_keeps_open :
+    (serveOneLive 1 false [.write [97], .setHeader sCL [49]]).markedClose = false ∧
+    lookup (serveOneLive 1 false [.write [97], .setHeader sCL [49]]).sent sCL = [] ∧
+    lookup (serveOneLive 1 false [.write [97], .setHeader sCL [49]]).sent sTE = [] ∧
+    (serveOne 1 false [.write [97], .setHeader sCL [49]]).markedClose = true := by decide +kernel
+
 /-- non-vacuity: a chunked response and a Content-Length response meet the hypotheses and parse in sequence -/
 example : (parseN 2 ((serveOne 1 false [.setHeader sTE sChunked, .write [104, 105], .flush, .write [33]]).out ++
       (serveOne 1 false [.setHeader sCL bCL, .writeHeader 404, .write bBody]).out)).map
@@ -174,3 +183,4 @@ end NettyVerif.C15
 #print axioms NettyVerif.C15.C15_pipelined_in_order
 #print axioms NettyVerif.C15.C15_pinned_flush_finishes
 #print axioms NettyVerif.C15.C15_pinned_chunked_to_http10
+#print axioms NettyVerif.C15.C15_pinned_late_header_keeps_open
